@@ -41,7 +41,9 @@ CONSTANTS Links,          \* e.g. {1} or {1, 2}
           QLen,           \* capacity of one direction of a connection (a full direction blocks the writer)
           Sync,           \* see above
           CancelOnReturn, \* TRUE: runProtocol cancels ci.Context when it returns (code after the repair); FALSE: code as found
-          BSilence, BCut, ShutNodes, CancelNodes, BReborn,   \* environment budgets
+          Coarse,         \* TRUE: a main loop that is between two of its sequential steps runs on before anything else moves
+          RealNodes,      \* nodes modelled at the code's grain; the other node (if any) is an adversary owning its connection ends
+          BSilence, BCut, ShutNodes, CancelNodes, BReborn, BAdv, BIdle, BDial,   \* environment budgets
           Wit             \* TRUE: keep the witness counters
 
 Nodes == {"a", "b"}
@@ -96,7 +98,7 @@ Init ==
   /\ mode = [k \in Links |-> "ok"]
   /\ dl = [k \in Links |-> [st |-> "dial", cur |-> None, cc |-> FALSE, t |-> 0, lev |-> 0]]
   /\ ls = [k \in Links |-> [st |-> "accept", cur |-> None, sock |-> TRUE]]
-  /\ bud = [silence |-> BSilence, cut |-> BCut, shut |-> ShutNodes, cancel |-> CancelNodes, reborn |-> BReborn]
+  /\ bud = [silence |-> BSilence, cut |-> BCut, shut |-> ShutNodes, cancel |-> CancelNodes, reborn |-> BReborn, adv |-> BAdv, idle |-> BIdle, dial |-> BDial]
   /\ wit = [redial |-> 0, idlecut |-> FALSE, reest |-> FALSE]
 
 (***************************************************************************)
@@ -117,7 +119,8 @@ CanSend(n, c) == /\ S(n, c).wr = "run"
 SendFails(n, c) == MyEnd(n, c) # "open"
 CoAfterSend(n, c, m) ==
   IF MyEnd(n, c) = "open" /\ mode[Lk(c)] = "ok" /\ ~co[c].cut
-  THEN IF n = "a" THEN [co EXCEPT ![c].ql = Append(@, m)] ELSE [co EXCEPT ![c].qd = Append(@, m)]
+  THEN IF Peer(n) \notin RealNodes THEN co      \* DEVIATION (model): an adversary reads at once (never blocks the writer)
+       ELSE IF n = "a" THEN [co EXCEPT ![c].ql = Append(@, m)] ELSE [co EXCEPT ![c].qd = Append(@, m)]
   ELSE co
 \* protoWriter: Send error -> ci.CancelFunc(), return
 AfterSend(n, c, r) == IF SendFails(n, c) THEN [r EXCEPT !.can = TRUE, !.wr = "off"] ELSE r
@@ -134,11 +137,13 @@ Delay(lev) == T0(lev + 1)
 \* df(closeChan) succeeds: the listening socket exists (the connection waits in its backlog)
 DialOk(k) ==
   /\ dl[k].st = "dial" /\ ctx["a"] = "up" /\ ls[k].sock
+  /\ Sync \/ bud.dial > 0                       \* untimed runs: the number of successful dials is bounded
+  /\ bud' = IF Sync THEN bud ELSE [bud EXCEPT !.dial = @ - 1]
   /\ \E c \in CO : /\ Lk(c) = k /\ Reusable(c)
                    /\ \A c2 \in CO : (Lk(c2) = k /\ Reusable(c2)) => c[2] <= c2[2]
                    /\ co' = [co EXCEPT ![c] = [NoCo EXCEPT !.d = "open", !.l = "backlog"]]
                    /\ dl' = [dl EXCEPT ![k] = [st |-> "hand", cur |-> c, cc |-> FALSE, t |-> 0, lev |-> 0]]   \* redialDelayInc.Reset()
-  /\ UNCHANGED <<ctx, listed, adj, table, req, tm, ss, mode, ls, bud, wit>>
+  /\ UNCHANGED <<ctx, listed, adj, table, req, tm, ss, mode, ls, wit>>
 
 \* df fails (no listener, or the context is cancelled): wait and retry while `redial && ctx.Err() == nil`
 DialFail(k) ==
@@ -178,7 +183,7 @@ Redial(k) ==
         /\ UNCHANGED wit
   /\ UNCHANGED <<ctx, listed, adj, table, req, tm, ss, co, mode, ls, bud>>
 
-DialStep(k) == DialOk(k) \/ DialFail(k) \/ DialHand(k) \/ DialClosed(k) \/ Redial(k)
+DialStep(k) == "a" \in RealNodes /\ (DialOk(k) \/ DialFail(k) \/ DialHand(k) \/ DialClosed(k) \/ Redial(k))
 
 (***************************************************************************)
 (* listenerSession, one goroutine per listener backend                     *)
@@ -208,7 +213,7 @@ LisExit(k) ==
   /\ co' = [c \in CO |-> IF Lk(c) = k /\ co[c].l = "backlog" THEN [co[c] EXCEPT !.l = "closed"] ELSE co[c]]
   /\ UNCHANGED <<ctx, listed, adj, table, req, tm, ss, mode, dl, bud, wit>>
 
-LisStep(k) == Accept(k) \/ LisHand(k) \/ LisExit(k)
+LisStep(k) == "b" \in RealNodes /\ (Accept(k) \/ LisHand(k) \/ LisExit(k))
 
 (***************************************************************************)
 (* protoReader                                                             *)
@@ -362,20 +367,30 @@ SessEnd(n, c) ==
   /\ dl' = IF n = "a" /\ dl[Lk(c)].cur = c THEN [dl EXCEPT ![Lk(c)].cc = TRUE] ELSE dl
   /\ UNCHANGED <<ctx, listed, adj, table, req, tm, mode, ls, bud, wit>>
 
-SessStep(n, c) ==
-  \/ ReaderRecv(n, c) \/ ReaderErr(n, c) \/ Reap(n, c) \/ FloodWrite(n, c) \/ InitSend(n, c) \/ InitWake(n, c)
+GoStep(n, c) == ReaderRecv(n, c) \/ ReaderErr(n, c) \/ Reap(n, c) \/ FloodWrite(n, c) \/ InitSend(n, c) \/ InitWake(n, c)
+MainStep(n, c) ==
   \/ RecvFirst(n, c) \/ RecvRejectFresh(n, c) \/ InitDone(n, c) \/ KnownAdd(n, c) \/ ReqUpdate(n, c) \/ ReqRebuild(n, c)
   \/ ReqSkip(n, c) \/ RecvEst(n, c) \/ MainCancel(n, c) \/ ConnDel(n, c) \/ KnownDel(n, c) \/ SendReject(n, c) \/ SessEnd(n, c)
+
+\* Coarse = TRUE (used with Sync for the liveness runs, to keep them small): a main loop that is between two of its
+\* sequential steps (these phases always have an enabled step) runs on before any other internal step is taken.
+\* The races this hides are explored with Coarse = FALSE.
+Urgent(n, c) == S(n, c).ph \in {"idone", "adj", "upd", "rmc", "rmk", "ret", "end1", "end2"}
+UrgentSet == {x \in RealNodes \X CO : Urgent(x[1], x[2])}
+Hold == Coarse /\ UrgentSet # {}
+Chosen == CHOOSE x \in UrgentSet : TRUE
+SessStep(n, c) == IF Hold THEN <<n, c>> = Chosen /\ MainStep(n, c) ELSE GoStep(n, c) \/ MainStep(n, c)
 
 (***************************************************************************)
 (* Node-level goroutines                                                   *)
 (***************************************************************************)
 \* sendRoutingUpdate: nothing without connections; else makeRoutingUpdate + flood to every entry of s.connections.
 \* DEVIATION (model): the two RLock sections (make, flood) are one step.
+Flood(n) == IF listed[n] # None THEN ss' = [ss EXCEPT ![n][listed[n]].fl = "U1"] ELSE UNCHANGED ss
 OwnUpdate(n) ==
   /\ req[n].upd /\ ctx[n] # "down"
   /\ req' = [req EXCEPT ![n].upd = FALSE]
-  /\ IF listed[n] # None THEN ss' = [ss EXCEPT ![n][listed[n]].fl = "U1"] ELSE UNCHANGED ss
+  /\ Flood(n)
   /\ UNCHANGED <<ctx, listed, adj, table, tm, co, mode, dl, ls, bud, wit>>
 
 Rebuild(n) ==
@@ -386,26 +401,27 @@ Rebuild(n) ==
 
 \* the periodic routing update is the keep-alive
 KATick(n) ==
-  /\ Due(tm[n].ka) /\ ctx[n] # "down" /\ (Sync \/ (~req[n].upd /\ listed[n] # None))
+  /\ Due(tm[n].ka) /\ ctx[n] # "down" /\ (Sync \/ (listed[n] # None /\ ss[n][listed[n]].fl = "no"))
   /\ tm' = [tm EXCEPT ![n].ka = T0(KA)]
-  /\ req' = [req EXCEPT ![n].upd = TRUE]
-  /\ UNCHANGED <<ctx, listed, adj, table, ss, co, mode, dl, ls, bud, wit>>
+  /\ Flood(n)                                   \* the tick runner calls sendRoutingUpdate itself
+  /\ UNCHANGED <<ctx, listed, adj, table, req, co, mode, dl, ls, bud, wit>>
 
 \* monitorConnectionAging: cancel every listed connection with time.Since(lastReceivedData) > maxConnectionIdleTime
 PollTick(n) ==
   /\ Due(tm[n].poll) /\ ctx[n] # "down"
-  /\ Sync \/ (listed[n] # None /\ ~ss[n][listed[n]].can)
+  /\ Sync \/ (listed[n] # None /\ ~ss[n][listed[n]].can /\ bud.idle > 0)
+  /\ bud' = IF Sync THEN bud ELSE [bud EXCEPT !.idle = @ - 1]
   /\ tm' = [tm EXCEPT ![n].poll = T0(Poll)]
   /\ IF listed[n] # None /\ (~Sync \/ ss[n][listed[n]].age > MaxIdle)
      THEN /\ ss' = [ss EXCEPT ![n][listed[n]].can = TRUE]
           /\ wit' = IF Wit THEN [wit EXCEPT !.idlecut = TRUE] ELSE wit
      ELSE UNCHANGED <<ss, wit>>
-  /\ UNCHANGED <<ctx, listed, adj, table, req, co, mode, dl, ls, bud>>
+  /\ UNCHANGED <<ctx, listed, adj, table, req, co, mode, dl, ls>>
 
-NodeStep(n) == OwnUpdate(n) \/ Rebuild(n) \/ KATick(n) \/ PollTick(n)
+NodeStep(n) == ~Hold /\ (OwnUpdate(n) \/ Rebuild(n) \/ KATick(n) \/ PollTick(n))
 
-Internal == \/ \E n \in Nodes : NodeStep(n) \/ (\E c \in CO : SessStep(n, c))
-            \/ \E k \in Links : DialStep(k) \/ LisStep(k)
+Internal == \/ \E n \in RealNodes : NodeStep(n) \/ (\E c \in CO : SessStep(n, c))
+            \/ ~Hold /\ \E k \in Links : DialStep(k) \/ LisStep(k)
 
 (***************************************************************************)
 (* Time                                                                    *)
@@ -439,10 +455,10 @@ Heal(k) == /\ mode[k] = "silent"
 CutConn(c) == /\ co[c].d = "open" /\ ~co[c].cut /\ bud.cut > 0
               /\ co' = [co EXCEPT ![c].cut = TRUE] /\ bud' = [bud EXCEPT !.cut = @ - 1]
               /\ UNCHANGED <<ctx, listed, adj, table, req, tm, ss, mode, dl, ls, wit>>
-Shutdown(n) == /\ n \in bud.shut /\ ctx[n] # "down"
+Shutdown(n) == /\ n \in bud.shut /\ n \in RealNodes /\ ctx[n] # "down"
                /\ ctx' = [ctx EXCEPT ![n] = "down"] /\ bud' = [bud EXCEPT !.shut = @ \ {n}]
                /\ UNCHANGED <<listed, adj, table, req, tm, ss, co, mode, dl, ls, wit>>
-CancelBackends(n) == /\ n \in bud.cancel /\ ctx[n] = "up"
+CancelBackends(n) == /\ n \in bud.cancel /\ n \in RealNodes /\ ctx[n] = "up"
                      /\ ctx' = [ctx EXCEPT ![n] = "bcancel"] /\ bud' = [bud EXCEPT !.cancel = @ \ {n}]
                      /\ UNCHANGED <<listed, adj, table, req, tm, ss, co, mode, dl, ls, wit>>
 
@@ -452,7 +468,7 @@ Quiet(n) == /\ QuietSessions(n)
             /\ n = "b" => \A k \in Links : ls[k].st = "off"
 
 \* the listener node is restarted (a new instance with the same id listens on the same address)
-Reborn == /\ ctx["b"] = "down" /\ Quiet("b") /\ bud.reborn > 0
+Reborn == /\ "b" \in RealNodes /\ ctx["b"] = "down" /\ Quiet("b") /\ bud.reborn > 0
           /\ ctx' = [ctx EXCEPT !["b"] = "up"] /\ bud' = [bud EXCEPT !.reborn = @ - 1]
           /\ listed' = [listed EXCEPT !["b"] = None] /\ adj' = [adj EXCEPT !["b"] = FALSE] /\ table' = [table EXCEPT !["b"] = FALSE]
           /\ req' = [req EXCEPT !["b"] = [upd |-> FALSE, reb |-> FALSE]]
@@ -461,7 +477,48 @@ Reborn == /\ ctx["b"] = "down" /\ Quiet("b") /\ bud.reborn > 0
           /\ ls' = [k \in Links |-> [st |-> "accept", cur |-> None, sock |-> TRUE]]
           /\ UNCHANGED <<ss, mode, dl, wit>>
 
+(***************************************************************************)
+(* The adversary: a node outside RealNodes is not modelled; its connection  *)
+(* ends do anything a peer or a transport can do (budget BAdv).             *)
+(***************************************************************************)
+Ghost(n) == n \notin RealNodes
+Spend == bud' = [bud EXCEPT !.adv = @ - 1]
+AdvSend(n, c, m) ==
+  /\ Ghost(n) /\ bud.adv > 0 /\ MyEnd(n, c) = "open" /\ Len(IF n = "a" THEN co[c].ql ELSE co[c].qd) < QLen
+  /\ co' = CoAfterSend(n, c, m) /\ Spend
+  /\ UNCHANGED <<ctx, listed, adj, table, req, tm, ss, mode, dl, ls, wit>>
+AdvDrain(n, c) ==
+  /\ Ghost(n) /\ InQ(n, c) # <<>>
+  /\ co' = IF n = "a" THEN [co EXCEPT ![c].qd = Tail(@)] ELSE [co EXCEPT ![c].ql = Tail(@)]
+  /\ UNCHANGED <<ctx, listed, adj, table, req, tm, ss, mode, dl, ls, bud, wit>>
+AdvClose(n, c) ==
+  /\ Ghost(n) /\ bud.adv > 0 /\ MyEnd(n, c) \in {"open", "backlog"}
+  /\ co' = IF n = "a" THEN [co EXCEPT ![c].d = "closed", ![c].qd = <<>>] ELSE [co EXCEPT ![c].l = "closed", ![c].ql = <<>>]
+  /\ Spend
+  /\ UNCHANGED <<ctx, listed, adj, table, req, tm, ss, mode, dl, ls, wit>>
+\* the adversary dials the real listener / accepts the real dialer's connection
+AdvDial(k) ==
+  /\ Ghost("a") /\ bud.adv > 0 /\ ls[k].sock
+  /\ \E c \in CO : /\ Lk(c) = k /\ Reusable(c)
+                   /\ \A c2 \in CO : (Lk(c2) = k /\ Reusable(c2)) => c[2] <= c2[2]
+                   /\ co' = [co EXCEPT ![c] = [NoCo EXCEPT !.d = "open", !.l = "backlog"]]
+  /\ Spend
+  /\ UNCHANGED <<ctx, listed, adj, table, req, tm, ss, mode, dl, ls, wit>>
+AdvAccept(c) ==
+  /\ Ghost("b") /\ co[c].l = "backlog"
+  /\ co' = [co EXCEPT ![c].l = "open"]
+  /\ UNCHANGED <<ctx, listed, adj, table, req, tm, ss, mode, dl, ls, bud, wit>>
+\* the adversary's listening socket goes away / comes back
+AdvListen(k) ==
+  /\ Ghost("b") /\ bud.adv > 0
+  /\ ls' = [ls EXCEPT ![k].sock = ~@] /\ Spend
+  /\ co' = IF ls[k].sock THEN [c \in CO |-> IF Lk(c) = k /\ co[c].l = "backlog" THEN [co[c] EXCEPT !.l = "closed"] ELSE co[c]] ELSE co
+  /\ UNCHANGED <<ctx, listed, adj, table, req, tm, ss, mode, dl, wit>>
+Adversary == \/ \E n \in Nodes, c \in CO : AdvDrain(n, c) \/ AdvClose(n, c) \/ AdvAccept(c) \/ (\E m \in {"U0", "U1", "RJ"} : AdvSend(n, c, m))
+             \/ \E k \in Links : AdvDial(k) \/ AdvListen(k)
+
 Env == \/ \E k \in Links : Silence(k) \/ Heal(k)
+       \/ Adversary
        \/ \E c \in CO : CutConn(c)
        \/ \E n \in Nodes : Shutdown(n) \/ CancelBackends(n)
        \/ Reborn
@@ -471,7 +528,7 @@ Next == Internal \/ Tick \/ Env
 Spec == Init /\ [][Next]_vars
 
 Fairness == /\ WF_vars(Tick)
-            /\ \A n \in Nodes : WF_vars(NodeStep(n)) /\ \A c \in CO : WF_vars(SessStep(n, c))
+            /\ \A n \in RealNodes : WF_vars(NodeStep(n)) /\ \A c \in CO : WF_vars(SessStep(n, c))
             /\ \A k \in Links : WF_vars(DialStep(k)) /\ WF_vars(LisStep(k))
 FairSpec == Spec /\ Fairness
 
